@@ -268,6 +268,7 @@ func (s *Scheme) runDKG(ctx context.Context, membership *membership, dkgProtocol
 	defer cancel()
 
 	callback := func(members []uint16) {
+		verifPoint("dkg.callbackStart")
 		universalIds := UIntsToUniversalIDs(members)
 		parties, err := membership.partyIDsByUniversalIDs(universalIds)
 		if err != nil {
@@ -306,6 +307,7 @@ func (s *Scheme) runDKG(ctx context.Context, membership *membership, dkgProtocol
 		if rbcExisted {
 			panic("Programming error: we shouldn't have gotten to a situation with two concurrent signing with the same topic")
 		}
+		verifPoint("dkg.afterRBCRegister")
 
 		s.Logger.Debugf("Running keygen with parties %v", members)
 
@@ -349,7 +351,9 @@ func (s *Scheme) runDKG(ctx context.Context, membership *membership, dkgProtocol
 
 		result, err := dkgProtocolInstance.KeyGen(ctx)
 
+		verifPoint("dkg.beforeResult")
 		resultChan <- mpcResult{data: result, err: err, parties: parties}
+		verifPoint("dkg.afterResult")
 	}
 
 	go func() {
@@ -458,6 +462,7 @@ func (s *Scheme) Sign(c context.Context, msgHash []byte, topic string) ([]byte, 
 	var signedSuccessfully uint32
 
 	initializeSigningInstance := func(signers []uint16) {
+		verifPoint("sign.callbackStart")
 		partyIDs, err := membership.partyIDsByUniversalIDs(UIntsToUniversalIDs(signers))
 		if err != nil {
 			resultChan <- struct {
@@ -479,6 +484,7 @@ func (s *Scheme) Sign(c context.Context, msgHash []byte, topic string) ([]byte, 
 			s.Logger.Errorf("Failed initializing signing instance: %v", err)
 			return
 		}
+		verifPoint("sign.afterPrepare")
 
 		// We will synchronize again to ensure all parties have initialized the signing instance before
 		// we actually start signing.
@@ -517,6 +523,7 @@ func (s *Scheme) Sign(c context.Context, msgHash []byte, topic string) ([]byte, 
 				sig []byte
 				err error
 			}{sig: signature, err: err}
+			verifPoint("sign.afterResult")
 		}, syncTopic, len(signers), SyncInterval)
 		if err != nil {
 			// suppress error in case we signed successfully
